@@ -95,6 +95,80 @@ func runCase(c caseSpec) verdict {
 	return v
 }
 
+// otherVolume finds a writable directory on a volume other than the scratch volume whose free space differs from
+// the scratch volume's by at least 4 GiB (so that a threshold half-way between them is safely between them).
+func otherVolume(scratch string) (dir string, scratchFree, otherFree float64, ok bool) {
+	var a syscall.Statfs_t
+	if syscall.Statfs(scratch, &a) != nil {
+		return
+	}
+	scratchFree = float64(a.Bavail) * float64(a.Bsize) / (1 << 30)
+	home, _ := os.UserHomeDir()
+	for _, cand := range []string{"/var/tmp", os.TempDir(), home, "/dev/shm"} {
+		var b syscall.Statfs_t
+		if cand == "" || syscall.Statfs(cand, &b) != nil || b.Fsid == a.Fsid {
+			continue
+		}
+		f := float64(b.Bavail) * float64(b.Bsize) / (1 << 30)
+		if d := f - scratchFree; d < 4 && d > -4 {
+			continue
+		}
+		d, err := os.MkdirTemp(cand, "verif-c18c-")
+		if err != nil {
+			continue
+		}
+		return d, scratchFree, f, true
+	}
+	return
+}
+
+type volCase struct {
+	Name       string  `json:"name"`
+	JobOnOther bool    `json:"job_on_the_other_volume"` // else on the scratch volume
+	Threshold  float64 `json:"threshold_gib"`
+	JobFree    float64 `json:"job_volume_free_gib"`
+	TempFree   float64 `json:"temp_volume_free_gib"`
+	MustPause  bool    `json:"must_pause"`
+}
+
+// runVolCase: the job directory on one volume, --warc-temp-dir on another, the threshold between their free space.
+// The crawler is started with a tiny threshold (both volumes pass the start-up check), the threshold is raised as
+// soon as it runs, and after the watchdog's first check (5 s) the pause state is read.
+func runVolCase(c volCase, scratch, other string) verdict {
+	v := verdict{Case: caseSpec{Name: c.Name}}
+	jobBase, tempBase := scratch, other
+	if c.JobOnOther {
+		jobBase, tempBase = other, scratch
+	}
+	dir, err := os.MkdirTemp(jobBase, "c18c-job-")
+	if err != nil {
+		hkit.EngineError("%v", err)
+	}
+	defer os.RemoveAll(dir)
+	tdir, err := os.MkdirTemp(tempBase, "c18c-temp-")
+	if err != nil {
+		hkit.EngineError("%v", err)
+	}
+	defer os.RemoveAll(tdir)
+	spec := &e2e.ChildSpec{Dir: dir, Conf: e2e.Conf{Job: "verif", Workers: 1, MinSpaceRequired: 0.001, DisableRateLimit: true, WARCTempDir: tdir}, Mode: "drain", Quiesce: true,
+		DeadlineS: 20, WatchdogS: 60, MinSpaceAfterStart: c.Threshold, PauseProbeMS: 7000}
+	res, err := e2e.RunChild(spec, e2e.RunHooks{})
+	if err != nil {
+		hkit.EngineError("child: %v", err)
+	}
+	paused, probed := res.HasEvent("pause-probe paused=true"), res.HasEvent("pause-probe paused=")
+	v.Runs = append(v.Runs, fmt.Sprintf("job volume %.1f GiB free, --warc-temp-dir volume %.1f GiB free, threshold %.1f GiB: paused=%v exit=%d", c.JobFree, c.TempFree, c.Threshold, paused, res.ExitCode))
+	switch {
+	case !probed || res.TimedOut:
+		hkit.EngineError("case %q: no pause probe: exit=%d events=%v stderr=%s", c.Name, res.ExitCode, res.Events, res.Stderr)
+	case c.MustPause && !paused:
+		v.Sig, v.Reason = "running-below-threshold:warc-temp-dir-on-another-volume", fmt.Sprintf("the crawler kept running although the job's volume has %.1f GiB free, below --min-space-required %.1f GiB (the volume of --warc-temp-dir has %.1f GiB)", c.JobFree, c.Threshold, c.TempFree)
+	case !c.MustPause && paused:
+		v.Sig, v.Reason = "paused-above-threshold:warc-temp-dir-on-another-volume", fmt.Sprintf("the crawler paused although the job's volume has %.1f GiB free, above --min-space-required %.1f GiB (the volume of --warc-temp-dir has %.1f GiB)", c.JobFree, c.Threshold, c.TempFree)
+	}
+	return v
+}
+
 func orAbsent(s string) string {
 	if s == "" {
 		return "absent"
@@ -156,9 +230,30 @@ func main() {
 			hkit.Report(propID, v.Sig, map[string]any{"engine": "e2e", "harness": "c18c", "verdict": v}, c.Name+": "+v.Reason)
 		}
 	}
+	// the running guard watches the job's volume, wherever --warc-temp-dir points
+	volNote := "no second volume with a free space at least 4 GiB away from the scratch volume's was found: the two cases with --warc-temp-dir on another volume were not run"
+	if other, sf, of, ok := otherVolume(tmp); ok {
+		mid := (sf + of) / 2
+		vcs := []volCase{
+			{Name: "job on the scratch volume, --warc-temp-dir on another volume", JobOnOther: false, Threshold: mid, JobFree: sf, TempFree: of, MustPause: sf < mid},
+			{Name: "job on another volume, --warc-temp-dir on the scratch volume", JobOnOther: true, Threshold: mid, JobFree: of, TempFree: sf, MustPause: of < mid},
+		}
+		for _, vc := range vcs {
+			v := runVolCase(vc, tmp, other)
+			runs += len(v.Runs)
+			sample = append(sample, v)
+			if v.Reason != "" && !seen[v.Sig] {
+				seen[v.Sig] = true
+				hkit.Report(propID, v.Sig, map[string]any{"engine": "e2e", "harness": "c18c", "verdict": v, "vol_case": vc}, vc.Name+": "+v.Reason)
+			}
+		}
+		os.RemoveAll(other)
+		volNote = fmt.Sprintf("2 runs with the job directory and --warc-temp-dir on different volumes (%.1f and %.1f GiB free), the threshold between them, raised right after an admitted start: after the watchdog's first check the crawler is paused exactly when the job's volume is the one below the threshold", sf, of)
+		cs = append(cs, caseSpec{Name: vcs[0].Name}, caseSpec{Name: vcs[1].Name})
+	}
 	hkit.Evidence(propID, a.Tier, "exploration", map[string]any{
 		"evaluations": runs, "distinct_nontrivial": len(cs), "samples": sample, "exhaustive": true,
-		"explanation": fmt.Sprintf("part C: %d histories of 1-3 runs of the real controler.Start() in child processes on one job directory (absent / present / present with a file before the first run) with --min-space-required far above or far below the free space of the scratch volume (%.1f GiB): a run must refuse to start (exit 1, \"low disk space\") exactly when the threshold is above the free space, whatever earlier runs left behind", len(cs), freeGiB),
+		"explanation": fmt.Sprintf("part C: %d histories of 1-3 runs of the real controler.Start() in child processes on one job directory (absent / present / present with a file before the first run) with --min-space-required far above or far below the free space of the scratch volume (%.1f GiB): a run must refuse to start (exit 1, \"low disk space\") exactly when the threshold is above the free space, whatever earlier runs left behind; %s", len(cs), freeGiB, volNote),
 	}, []string{"part C: the real volume of the scratch directory supplies the statfs figures; thresholds are chosen a factor 4 away from them"}, hkit.Violations())
 	fmt.Printf("C18 %s (part C): %d histories, %d runs of the real start-up path, %d failing signatures\n", a.Tier, len(cs), runs, len(seen))
 	hkit.Exit()
